@@ -4,7 +4,7 @@ use crate::op_repeat::Repeat;
 
 #[derive(Debug)]
 pub(crate) struct History {
-    zero_length_matches: HashMap<*const Repeat, HashSet<usize>>,
+    zero_length_matches: HashMap<*const Repeat, HashSet<(usize, Vec<Option<usize>>)>>,
 }
 
 impl History {
@@ -18,7 +18,11 @@ impl History {
         &mut self,
         repeat: &Repeat,
         position: usize,
+        backrefs: Vec<Option<usize>>,
     ) -> bool {
+        // what follows the repeat can depend on the text visible to
+        // back-references, so that is part of what makes a match a duplicate
+        let position = (position, backrefs);
         // we take the address of the repeat operation as a cache key
         let cache_key = repeat as *const Repeat;
 
